@@ -82,6 +82,10 @@ def rand_bytes(rng):
     if w < 0.35:
         words = ["hello", "a b", "x // y", "key", "Hello World", "//", "a  b", ""]
         return rng.choice(words).encode()
+    if w < 0.45:
+        # base64 spellings that start with, contain or end in `//` (0xffff.. encodes as `//..`)
+        tail = bytes(rng.getrandbits(8) for _ in range(rng.choice([0, 1, 2, 4, 7])))
+        return rng.choice([b"\xff\xff" + tail, tail[:3].ljust(3, b"a") + b"\xff\xff\xff" + tail, tail + b"\xff\xff\xff"])
     n = rng.choice([0, 1, 2, 4, 8, 32])
     return bytes(rng.getrandbits(8) for _ in range(n))
 
